@@ -446,22 +446,23 @@ func wireModel(c wireCase) (out wireOutcome, ok bool) {
 		if end > limit {
 			break // incomplete trailing event: no effect
 		}
-		switch e.Kind {
-		case "poll":
-			if !polled {
-				polled = true
-				for _, q := range c.Queue {
-					if q.Closed {
-						if s := streams[q.ID]; s != nil && s.state == uint32(streamOpened) {
-							s.state = uint32(streamHalfClosed)
-						}
-						continue
+		// every stream-level event first consumes what the peer had put into the queue before it wrote the event
+		// (the queue content of a case is in place before the first byte is delivered)
+		if !polled {
+			polled = true
+			for _, q := range c.Queue {
+				if q.Closed {
+					if s := streams[q.ID]; s != nil && s.state == uint32(streamOpened) {
+						s.state = uint32(streamHalfClosed)
 					}
-					if s := get(q.ID, true); s != nil && s.state != uint32(streamClosed) {
-						s.data = append(s.data, keyedBytes(q.ID, 0, q.N)...)
-					}
+					continue
+				}
+				if s := get(q.ID, true); s != nil && s.state != uint32(streamClosed) {
+					s.data = append(s.data, keyedBytes(q.ID, 0, q.N)...)
 				}
 			}
+		}
+		switch e.Kind {
 		case "close":
 			if s := streams[e.ID]; s != nil && s.state == uint32(streamOpened) {
 				s.state = uint32(streamHalfClosed)
